@@ -25,10 +25,10 @@ type wrapTimes struct {
 	// startDeficitMS tells how long before availabilityStartTime now-timeShiftBufferDepth is (0 if it is not).
 	// startTimeMS is limited to the start, but an availabilityTimeOffset must be added to the unlimited value.
 	startDeficitMS int
-	nowMS       int
-	nowWraps    int
-	nowWrapMS   int
-	nowRelMS    int
+	nowMS          int
+	nowWraps       int
+	nowWrapMS      int
+	nowRelMS       int
 }
 
 func calcWrapTimes(a *asset, cfg *ResponseConfig, nowMS int, tsbd m.Duration) wrapTimes {
@@ -463,24 +463,36 @@ func splitPeriod(mpd *m.MPD, a *asset, cfg *ResponseConfig, wTimes wrapTimes) (l
 
 // listedPeriods returns the numbers of the first and the last period in the MPD: the periods that
 // contain the start of the time-shift window and now, respectively.
+// With an availabilityTimeOffset, the segments are listed and available that much earlier, so both
+// times are moved by it, exactly as for the segment timelines. Otherwise the newest segments would
+// start after the end of the last period, or in a period that is not listed yet.
 // lastChangeMS is the latest time at which that range changed: either the last period was added,
 // or the period before the first one was removed since the start of the time-shift window left it.
 func listedPeriods(cfg *ResponseConfig, wTimes wrapTimes, periodDurMS int) (firstNr, lastNr, lastChangeMS int) {
 	// Period@start and the media timeline are relative to availabilityStartTime, so that is where period 0 starts.
 	streamStartMS := cfg.StartTimeS * 1000
-	firstNr = (wTimes.startTimeMS - streamStartMS) / periodDurMS
-	lastNr = (wTimes.nowMS - streamStartMS) / periodDurMS
+	atoMS := 0
+	if ato := cfg.getAvailabilityTimeOffsetS(); ato > 0 && !math.IsInf(ato, +1) {
+		atoMS = int(math.Round(ato * 1000))
+	}
+	// The window start is limited to the stream start after the availabilityTimeOffset has been added
+	windowStartMS := wTimes.startTimeMS - wTimes.startDeficitMS
+	firstNr = (windowStartMS + atoMS - streamStartMS) / periodDurMS
+	if firstNr < 0 {
+		firstNr = 0
+	}
+	lastNr = (wTimes.nowMS + atoMS - streamStartMS) / periodDurMS
 	if lastNr < firstNr {
 		lastNr = firstNr
 	}
 	lastChangeMS = streamStartMS
-	if addedMS := streamStartMS + lastNr*periodDurMS; addedMS > lastChangeMS {
+	if addedMS := streamStartMS + lastNr*periodDurMS - atoMS; addedMS > lastChangeMS {
 		lastChangeMS = addedMS
 	}
-	if firstStartMS := streamStartMS + firstNr*periodDurMS; firstStartMS > streamStartMS {
-		// An earlier period has been listed. The window start is not clamped to the stream start here.
-		timeShiftBufferDepthMS := wTimes.nowMS - wTimes.startTimeMS
-		if removedMS := firstStartMS + timeShiftBufferDepthMS; removedMS > lastChangeMS {
+	if firstNr > 0 {
+		// An earlier period has been listed
+		timeShiftBufferDepthMS := wTimes.nowMS - windowStartMS
+		if removedMS := streamStartMS + firstNr*periodDurMS - atoMS + timeShiftBufferDepthMS; removedMS > lastChangeMS {
 			lastChangeMS = removedMS
 		}
 	}
